@@ -132,7 +132,7 @@ def collect_unsafe_coverage(tier, seed):
 
 R_PREFIX = {
     "C13": ("R:legal:",),
-    "C10": ("R:closure:", "R:legal:", "R:keep:"),
+    "C10": ("R:closure:", "R:legal:", "R:keep:", "R:complete:"),
     "C09": ("R:keep:", "R:keepmode:", "R:auto:", "R:mode:"),
     "C06": ("R:auto:iter", "R:mode:", "R:keepmode:iter"),
     "C07": ("R:mode:range", "R:closure:range"),
